@@ -92,15 +92,27 @@ def main(argv=None):
         hs = [h for h in hs if h.name in only]
     kinfo = {}
     if hs:
-        by_timeout = {}
+        res = {}
+        groups = {}
         for h in hs:
-            by_timeout.setdefault(h.timeout(a.tier), []).append(h)
-        results = {}
-        # one cargo-kani invocation per distinct time-out class would recompile; use the max and let
-        # the per-harness budget be enforced by classification afterwards
-        tmax = max(by_timeout)
-        res, kinfo = kani_engine.run([h.fq() for h in hs], tmax, jobs=a.jobs,
-                                     log_path=os.path.join(LOGS, "%s-kani.log" % prop))
+            groups.setdefault(h.group, []).append(h)
+        for gname, ghs in groups.items():
+            tmax = max(h.timeout(a.tier) for h in ghs)
+            uw = {}
+            for h in ghs:
+                for k, v in h.unwindset.items():
+                    uw[k] = max(v, uw.get(k, 0))
+            gres, ginfo = kani_engine.run([h.fq() for h in ghs], tmax, jobs=a.jobs, unwindset=uw,
+                                          log_path=os.path.join(LOGS, "%s-kani-%s.log" % (prop, gname)))
+            res.update(gres)
+            if not kinfo:
+                kinfo = ginfo
+            else:
+                kinfo["cmd"] += " ;; " + ginfo.get("cmd", "")
+                kinfo["kani_build_s"] = (kinfo.get("kani_build_s") or 0) + (ginfo.get("kani_build_s") or 0)
+            if ginfo.get("compile_failed"):
+                kinfo["compile_failed"] = True
+                kinfo["compile_errors"] = ginfo.get("compile_errors", "")
         if kinfo.get("compile_failed"):
             why = "harness crate does not compile against the current tree (the encoded functions changed shape): " + \
                 kinfo.get("compile_errors", "")[:1500].replace("\n", " | ")
@@ -134,7 +146,7 @@ def main(argv=None):
                 ob["verdict"] = "unwind"
                 continue
             # counterexample: extract concrete values, replay natively
-            pres, pinfo = kani_engine.run([h.fq()], h.timeout(a.tier) * 2, jobs=1, playback=True,
+            pres, pinfo = kani_engine.run([h.fq()], h.timeout(a.tier) * 2, jobs=1, playback=True, unwindset=h.unwindset,
                                           log_path=os.path.join(LOGS, "%s-%s-playback.log" % (prop, h.name)))
             vals = pinfo.get("playback_vals")
             if vals is None:
